@@ -27,7 +27,7 @@ type dagCase struct {
 	Prev *dagCase `json:"prev,omitempty"`
 }
 
-var dagPart = pbt.Part[dagCase]{Name: "dag-structural", Quick: 60000, Thorough: 1200000, Gen: genDag, Check: checkDag}
+var dagPart = pbt.Part[dagCase]{Name: "dag-structural", Journal: true, Quick: 60000, Thorough: 1200000, Gen: genDag, Check: checkDag}
 
 func genDag(t *rapid.T) dagCase {
 	c := genOneDag(t)
